@@ -14,12 +14,12 @@ def _c11_oid(tier, seed):
 
 PROPS["C11"] = dict(
     level="other",
-    functions=_DER_TLV,
+    functions=_DER_TLV + ["ecdsa.der.read_number"],
     lemmas=["der.roundtrip_length", "der.roundtrip_integer", "der.roundtrip_octet_string", "der.roundtrip_sequence",
             "der.roundtrip_constructed", "der.roundtrip_bitstring"],
     bounded=[dict(function=q, role="CPython cross-check of a proved contract", bound="structured DER corpus (spec.domains.der_strings)")
              for q in _DER_TLV] +
-            [dict(function="ecdsa.der.remove_object", label="OBJECT IDENTIFIER codec against the X.690 spec encoders", role="bounded stand-in (encode_number, read_number, encode_oid, remove_object are not under a deductive contract)",
+            [dict(function="ecdsa.der.remove_object", label="OBJECT IDENTIFIER codec against the X.690 spec encoders", role="bounded stand-in (encode_number, encode_oid, remove_object are not under a deductive contract; read_number is: canonical structure, value, UnexpectedDER exactly when no canonical sub-identifier starts the string)",
                   bound="sub-identifiers 0..20000 (quick) / 300000 (thorough) + 2^(7k)+-1, 2^64, 2^70, 10^30, 300 random up to 90 bits; 180 structured OIDs (first arcs at the 39/40/47/48 boundaries, arcs up to 2^70) (+3000 random, thorough) x remainders; every single-byte substitution / insertion / truncation, non-minimal length, padded sub-identifier and length overrun of each canonical encoding must be rejected with UnexpectedDER or be canonical itself",
                   run=_c11_oid)],
     min_obligations=30,
@@ -280,7 +280,7 @@ PROPS["C10"] = dict(
     level="other",
     functions=_LOADERS + ["ecdsa.util.sigdecode_string", "ecdsa.util.sigdecode_strings", "ecdsa.util.sigdecode_der", _K + "VerifyingKey.verify_digest",
                           "ecdsa.der.read_length", "ecdsa.der.remove_integer", "ecdsa.der.remove_sequence", "ecdsa.der.remove_octet_string", "ecdsa.der.remove_constructed",
-                          "ecdsa.der.remove_bitstring", "ecdsa.ecdsa.Public_key.__init__",
+                          "ecdsa.der.remove_bitstring", "ecdsa.der.read_number", "ecdsa.ecdsa.Public_key.__init__",
                           "ecdsa.ecdh.ECDH.load_private_key_bytes", "ecdsa.ecdh.ECDH.load_private_key_der", "ecdsa.ecdh.ECDH.load_private_key_pem",
                           "ecdsa.ecdh.ECDH.load_received_public_key_bytes", "ecdsa.ecdh.ECDH.load_received_public_key_der", "ecdsa.ecdh.ECDH.load_received_public_key_pem"],
     lemmas=[],
